@@ -349,9 +349,11 @@ class Interp:
             r = args[1] if len(args) > 1 else 0
             for x in args[0]: r = r + x
             return r
-        if f in ITERATING:
+        if f is functools.reduce:
+            args = [self.wrap_callable(args[0]), self.native_iterable(args[1])] + list(args[2:])
+        elif f in ITERATING:
             args = [self.native_iterable(a) for a in args]
-            if f is functools.reduce or f is builtins.sorted: args[0] = self.wrap_callable(args[0])
+            if f is builtins.sorted: args[0] = self.wrap_callable(args[0])
             if f is builtins.sorted and has_sym(list(args[0])): raise EngineError('sorted() of symbolic values')
             if 'key' in kwargs: kwargs = dict(kwargs, key=self.wrap_callable(kwargs['key']))
         if f is struct.unpack and isinstance(args[1], SBytes): return SB.struct_unpack(args[0], args[1])
@@ -646,6 +648,9 @@ class Interp:
     def subscript(self, o, i):
         m = getattr(type(o), '__getitem__', None)
         if m in self.contracts or is_repo_func(m): return self.call(m, (o, i))
+        if isinstance(o, (list, tuple, bytes, SBytes)) and not isinstance(i, (int, slice, SymInt)) \
+           and is_repo_func(getattr(type(i), '__index__', None)):
+            i = self.call(type(i).__index__, (i,))          # operator.index() protocol of a repository object
         if isinstance(i, SymInt):
             if isinstance(o, (list, tuple, bytes, SBytes, range)):
                 n = len(o)
